@@ -77,9 +77,53 @@ func init() {
 		NotDecided: []string{
 			"the completeness direction is stated per RFC error code (a request is refused with code X only if condition X fails) rather than as one biconditional, because success of the two decryptions also depends on the decoded ASN.1 being well-formed",
 			"'the keytab key selected' is stated as: some keytab entry matching principal/realm/kvno/etype (kmatch) decrypts the ticket; that GetEncryptionKey returns the newest such entry is C14",
-			"the replay and PAC clauses of the statement (accepted => not a replay, PAC valid) are not visible in VerifyAPREQ's postcondition",
+			"the replay and PAC clauses are stated through ghost records of the callee results (accepted => IsReplay answered false and GetPACType did not report a bad PAC); what those callees guarantee is C02 / C19",
 		},
 		LevelNote: "Proved for every AP-REQ, keytab and settings: VerifyAPREQ returns ok only if a matching keytab entry decrypts the ticket (usage 2), both clock readings are inside start/end/authenticator time extended by the effective skew (default 5 min when unset), the invalid flag is clear, the address requirements hold, the authenticator decrypts under the ticket session key with usage 11 (7 for krbtgt), cname and crealm agree with the ticket; and the credentials returned carry the ticket's cname, crealm and endtime. Refusals always carry an error, and each RFC 4120 error code is only produced when its condition holds.",
+	}
+	props["C09"] = &PropDef{
+		Funcs: []string{
+			`\(\*messages\.ASRep\)\.(Verify|DecryptEncPart)`, `\(\*messages\.TGSRep\)\.(Verify|DecryptEncPart)`,
+			`(*client.Client).ASExchange`, `(*client.Client).TGSExchange`, `(*client.Cache).addEntry`,
+			`types.HostAddressesEqual`, `types.HostAddressesContains`, `(*types.HostAddress).Equal`, `(*types.PADataSequence).Contains`,
+			`(types.PrincipalName).Equal`, `types.IsFlagSet`,
+			`crypto.DecryptEncPart`, `crypto.DecryptMessage`, `(*keytab.Keytab).GetEncryptionKey`,
+		},
+		Kinds:           kinds(contractKinds...),
+		NeedObligations: true,
+		QuickTimeout:    20,
+		Assumptions: []string{
+			"decryption success of an etype is the uninterpreted et_dec_ok (contract of etype.EType.DecryptMessage, trusted_ensures); C05/C06 relate it to the RFCs",
+			"the ASN.1 decoder fills only the destination structure (trusted_frame on the Unmarshal methods); decoded field values are unconstrained",
+			"sendToKDC returns arbitrary bytes or an arbitrary error (network is the adversary); setPAData rewrites only the request's PA-DATA and two client settings (trusted_frame)",
+			"the password-derived key is whatever crypto.GetKeyFromPassword returns for the reply's cname/crealm/etype/PA-DATA (its RFC correctness is C08)",
+		},
+		NotDecided: []string{
+			"that a KRB-ERROR reply reaches the caller carrying the KDC's error code: the code is embedded in a formatted error text (krberror.Errorf), outside what the contracts express",
+			"rejection of every altered reply is stated as the soundness direction only (accepted => all checks hold); that any single altered field is caught follows from it, but truncated encodings are a decoder matter (C04/C13)",
+			"TGS-REP: the library does not compare the reply's sname with the request (the check is commented out in TGSRep.Verify); the contract states only what the code checks (cname, ticket realm, nonce, srealm, addresses, time)",
+		},
+		LevelNote: "Proved for every reply, request, credentials and configuration: ASRep.Verify / ASExchange succeed only if cname, crealm, nonce, sname, srealm (and addresses when requested) equal those of the request sent, the enc-part decrypts (usage 3) under the client's key - for keytab credentials an entry matching the reply's cname/crealm/kvno/etype - and KDC authtime is within the configured clockskew; TGSRep.DecryptEncPart uses usage 8 with the TGT session key and TGSRep.Verify / TGSExchange succeed only if cname, ticket realm, nonce and srealm match the request returned with the reply, every reply address is among the requested ones and start or auth time is within clockskew. Both exchanges terminate: referral recursion has the variant 6 - referral.",
+	}
+	props["C02"] = &PropDef{
+		Funcs: []string{
+			`(*service.Cache).IsReplay`, `(*service.Cache).AddEntry`, `(*service.Cache).addEntry`, `(*service.Cache).ClearOldEntries`,
+			`(*service.Cache).getClientEntries`, `(*service.Cache).getClientEntry`, `service.GetReplayCache`,
+			`service.VerifyAPREQ`,
+		},
+		Kinds:           kinds(append([]string{"lock"}, contractKinds...)...),
+		NeedObligations: true,
+		QuickTimeout:    20,
+		Assumptions: []string{
+			"concurrency is modelled by the lock-invariant rule: the maps declared as guarded by Cache.mux are arbitrary (up to the declared lock invariant, which is proved at every release) at each acquisition, and only accessed with the lock held (proved); goroutine interleavings between critical sections are covered by that havoc, data races outside declared guards and deadlocks across several locks are not analysed",
+			"a function without a held() precondition is entered with no declared lock held",
+			"map keys are compared as values: time.Time keys by instant (decoded authenticator times are UTC without monotonic reading), strings.Join is an uninterpreted function of the name components (so names whose components contain '/' may collide, as in the code)",
+		},
+		NotDecided: []string{
+			"that an entry is evicted only after its authenticator time has left the skew window, and that the clean-up goroutine passes the configured skew (ClearOldEntries is proved never to add entries; the eviction condition is not yet a postcondition)",
+			"the client realm is not part of the cache key in the code; the property statement speaks of client name and timestamp only",
+		},
+		LevelNote: "Proved for every cache content and every schedule in the lock-invariant model: IsReplay is an atomic test-and-set under one write lock - it returns true exactly when (client name, authenticator time incl. microseconds, service name) was recorded at the moment the lock was taken, records the presentation, and neither forgets nor adds any other record; AddEntry likewise; ClearOldEntries never adds a record; every access to the guarded maps happens with the lock held at the needed level, no lock is re-acquired or released unheld, and the lock invariant (every client has its own non-nil map) is re-established at each release. VerifyAPREQ accepts only when IsReplay answered false (ghost lastIsReplay).",
 	}
 	props["C17"] = &PropDef{
 		Funcs: []string{
